@@ -44,6 +44,8 @@ type histRun struct {
 	conts     map[string][]*server.RelatedFrom // saved query continuations by label
 	withJobs  bool
 	msources  map[string]*msJob // C18: the MultiSource of a job lives as long as the hub (like a scheduled job's pipeline)
+	bkDone    chan string       // C20: a backup run that is held open on a pipe (backupStart … backupEnd)
+	bkPipe    *os.File
 }
 
 func toEntity(m M) *server.Entity {
@@ -475,14 +477,8 @@ func runStoreHist(c *Ctx, in M) (M, interface{}) {
 					op["t"] = t
 				}
 			case "backup":
-				if r.bm == nil {
-					r.backupDir = r.dir + "-backup"
-					bm, err := server.VerifNewBackupManager(r.h.Store, r.backupDir, false, quietLogger())
-					if err != nil {
-						op["rc"] = "err"
-						continue
-					}
-					r.bm = bm
+				if !r.ensureBackupManager(op) {
+					continue
 				}
 				func() {
 					defer func() {
@@ -493,6 +489,10 @@ func runStoreHist(c *Ctx, in M) (M, interface{}) {
 					r.bm.Run()
 				}()
 				r.backupGen++
+			case "backupStart":
+				r.backupStart(op)
+			case "backupEnd":
+				r.backupEnd(op)
 			case "gc":
 				gc := server.NewGarbageCollector(r.h.Store, r.h.Env)
 				if err := gc.Cleandeleted(); err != nil {
@@ -1195,6 +1195,39 @@ func genStore(c *Ctx, profile string) {
 			ops = append(ops, M{"op": "q", "q": "catalogue", "names": []string{victim, fresh}, "on": "restore"},
 				M{"op": "q", "q": "entity", "id": "ns3:e1", "scope": []string{}, "on": "restore"},
 				M{"op": "q", "q": "entity", "id": "ns3:e2", "scope": []string{}, "on": "restore"})
+		}
+		if profile == "c20" && c.Rng.Intn(2) == 0 {
+			// forced schedule: commits while a backup run is streaming (the run is held open on a pipe), then a quiet
+			// run; what the restored hub answers is what the source answered when the quiet run started
+			ds := g.dss[c.Rng.Intn(len(g.dss))]
+			bulk := []M{}
+			for k := 0; k < 40+c.Rng.Intn(40); k++ { // enough bytes in the dump for the run to block on the pipe
+				bulk = append(bulk, M{"id": fmt.Sprintf("ns3:bulk%d", k), "deleted": false,
+					"props": M{"ns3:p0": strings.Repeat("b", 60+c.Rng.Intn(60)), "ns3:p1": c.Rng.Intn(1000)}, "refs": M{}})
+			}
+			if c.Rng.Intn(3) == 0 {
+				ops = append(ops, M{"op": "backup"})
+			}
+			ops = append(ops, M{"op": "store", "ds": ds, "ents": bulk}, M{"op": "backupStart"})
+			for k := 1 + c.Rng.Intn(3); k > 0; k-- {
+				if c.Rng.Intn(4) == 0 {
+					ops = append(ops, M{"op": "txn", "parts": []M{{"ds": ds, "ents": g.batch()}}})
+				} else {
+					ops = append(ops, M{"op": "store", "ds": g.dss[c.Rng.Intn(len(g.dss))], "ents": g.batch()})
+				}
+			}
+			ops = append(ops, M{"op": "backupEnd"})
+			if c.Rng.Intn(3) == 0 {
+				ops = append(ops, M{"op": "reopen"})
+			}
+			ops = append(ops, M{"op": "backup"})
+			for _, n := range g.dss {
+				ops = append(ops, M{"op": "q", "q": "list", "ds": n, "pages": []int{0}, "on": "restore"},
+					M{"op": "q", "q": "changes", "ds": n, "since": 0, "limits": []int{0}, "latestOnly": false, "on": "restore"})
+			}
+			for _, id := range g.ids {
+				ops = append(ops, M{"op": "q", "q": "entity", "id": id, "scope": []string{}, "on": "restore"})
+			}
 		}
 		if profile == "c18" {
 			doHist(c, M{"ops": withMsRuns(c, g, ops), "jobs": true})
